@@ -348,8 +348,7 @@ class Unit:
         return self.expr(cx, sub, meth[0].body[0].value, k)
 
     # ------------------------------------------------------------ statements
-    @staticmethod
-    def assigned(stmts):
+    def assigned(self, stmts):
         out = []
 
         def tgt(t):
@@ -370,6 +369,11 @@ class Unit:
                 elif isinstance(node, ast.Delete):
                     out.extend(t.value for t in node.targets
                                if isinstance(t, ast.Subscript))
+                elif isinstance(node, ast.Call) and \
+                        self.dotted(node.func) in self.streams:
+                    # a read changes the stream object and the read log
+                    out.append(ast.Name(id="__log"))
+                    out.append(node.func.value)
                 elif isinstance(node, ast.Call) and \
                         isinstance(node.func, ast.Attribute) and \
                         node.func.attr in ("append", "add", "clear"):
